@@ -489,7 +489,7 @@ def run(sh, spec):
             o = rng.choice(outs)
             run_case(sh, env, o, rng.choice(sorted(MESSAGES)) if o[0] == "raise" else "plain", rng.choice(VERBOSITY), rng.choice(LISTENERS), rng.random() < 0.5,
                      quiet=rng.random() < 0.08)
-        sh.sample({"outcome": ["raise", "custom-999"], "message": "closing", "flags": ["-vv"], "listener": "passes"})
+        sh.sample({"outcome": list(o), "message": "(last case of this shard)", "note": "one of the sampled outcome runs"})
     elif part == "outcomes-full":
         k = 0
         i, n = spec["slice"]
